@@ -337,7 +337,9 @@ func (p *valParser) val() interface{} {
 		return time.Unix(sec.Int64(), nsec.Int64()).In(loc)
 	case 'A':
 		n, _ := strconv.Atoi(t[1:])
-		out := make([]interface{}, 0, n)
+		// spare capacity behind the elements, as a slice built with append has: code that appends to (or assembles
+		// something inside) the caller's slice then writes into the caller's memory instead of reallocating
+		out := make([]interface{}, 0, n+3)
 		for j := 0; j < n; j++ {
 			out = append(out, p.val())
 		}
